@@ -156,6 +156,15 @@ func evalInv(c *InvCase) (string, string) {
 			return "C08/suffix-depends-on-spelling", fmt.Sprintf("unique suffix %s differs from the hash of the canonical suffix data %s for spelling %q", op.UniqueSuffix, c.WantSuffix, ev.Trunc(string(in), 300))
 		}
 	}
+	// the same request under a protocol version that enables both algorithms with the request's own one in second
+	// place: every hash field names its algorithm, so the request stays valid (the suffix is then computed with the
+	// version's first algorithm and is not compared here)
+	v2 := parserFor(uint(asm.SHA256+asm.SHA512)-uint(c.Code), uint(c.Code))
+	for _, in := range [][]byte{c.Request, c.Canonical} {
+		if _, err := v2.Parser.Parse(ns, in); err != nil {
+			return "C08/valid-create-rejected", fmt.Sprintf("valid create request whose hashes use the second of two enabled algorithms rejected in spelling %q: %v", ev.Trunc(string(in), 300), err)
+		}
+	}
 	for _, in := range [][]byte{c.Model, c.ModelCanon} {
 		mh, err := hashing.CalculateModelMultihash(in, uint(c.Code))
 		if err != nil || mh != c.WantModelMH {
